@@ -7,6 +7,7 @@ add("cleared-forgets-data","C04","result.go","\tr.data = nil\n","","POOL-CLEARED
 add("ctor-forgets-field","C04","validator.go","\tn.ExclusiveMinimum = exclusiveMinimum\n","","POOL-CTOR:newNumberValidator:numberValidator.ExclusiveMinimum")
 add("read-after-merge","C04","spec.go","(map iteration order)\n\t\t\t\tres.Merge(red)\n","(map iteration order)\n\t\t\t\tres.Merge(red)\n\t\t\t\t_ = red.IsValid()\n","RES-LINEAR:(*SpecValidator).validateRequiredDefinitions", quick=False)
 add("empty-result-guard-removed","C04","pools.go","\tif s == emptyResult {\n\t\treturn\n\t}\n","","POOL-API:empty-guard", quick=False)
+add("released-through-alias","C04","schema_props.go","\t\t\tbestFailures = result\n\n\t\t\tcontinue\n\t\t}\n\n\t\tif result.wantsRedeemOnMerge {\n\t\t\tpools.poolOfResults.RedeemResult(result) // this result is ditched\n\t\t}\n\t}\n\n\tmainResult.AddErrors(mustValidateAtLeastOneSchemaMsg","\t\t\tbestFailures = result\n\t\t}\n\n\t\tif result.wantsRedeemOnMerge {\n\t\t\tpools.poolOfResults.RedeemResult(result) // this result is ditched\n\t\t}\n\t}\n\n\tmainResult.AddErrors(mustValidateAtLeastOneSchemaMsg","RES-LINEAR:(*schemaPropsValidator).validateAnyOf:bestFailures", quick=False)
 # C05
 add("unlocked-default-opts","C05","spec.go","\tdefaultOptsMutex.Lock()\n\topts := defaultOpts\n\tdefaultOptsMutex.Unlock()\n","\topts := defaultOpts\n","LOCKSET:defaultOpts:read:NewSpecValidator")
 add("cache-updated-in-place","C05","rexp.go","\t\t\tnewCache[k] = v\n","\t\t\tnewCache[k] = v\n\t\t\tcache[k] = v\n","COW:published-map-written", quick=False)
